@@ -108,6 +108,25 @@ func (r *Run) Report() int {
 		name := "unresolved-function/" + strings.ReplaceAll(m, " ", ":")
 		violations = append(violations, r.violation(name, &Obl{Name: name, Kind: "unresolved", Src: "contract names a function that does not exist in the current tree: " + m, Status: "unresolved"}))
 	}
+	// `initial` facts of the property: decided by evaluating the package-level declarations
+	for pp, pc := range r.eng.contracts {
+		for i, c := range pc.Initials {
+			if !hasProp(c.Props, prop) {
+				continue
+			}
+			ok, why := r.eng.checkInitial(pp, c)
+			name := fmt.Sprintf("%s/initial#%d@%s", strings.TrimPrefix(pp, modulePath), i+1, strings.ReplaceAll(c.Text, " ", ""))
+			total++
+			o := &Obl{Name: name, Kind: "initial", Src: c.Text + "  -- " + why, Status: "discharged", Solver: "initialiser-evaluator", Props: c.Props}
+			if ok {
+				discharged++
+				bySolver["initialiser-evaluator"]++
+			} else {
+				o.Status = "failed"
+				violations = append(violations, r.violation(name, o))
+			}
+		}
+	}
 	for _, vc := range r.vcs {
 		funcs = append(funcs, vc.fn.String())
 		for k := range vc.externals {
